@@ -159,14 +159,14 @@ macro_rules! cast_all_targets {
     };
 }
 
-cast_all_targets!(i8, Variant::SByte, c06_q_cast_sbyte_sbyte, c06_q_cast_sbyte_byte, c06_q_cast_sbyte_int16, c06_q_cast_sbyte_uint16, c06_q_cast_sbyte_int32, c06_q_cast_sbyte_uint32, c06_q_cast_sbyte_int64, c06_q_cast_sbyte_uint64, c06_q_cast_sbyte_float, c06_q_cast_sbyte_double);
-cast_all_targets!(u8, Variant::Byte, c06_q_cast_byte_sbyte, c06_q_cast_byte_byte, c06_q_cast_byte_int16, c06_q_cast_byte_uint16, c06_q_cast_byte_int32, c06_q_cast_byte_uint32, c06_q_cast_byte_int64, c06_q_cast_byte_uint64, c06_q_cast_byte_float, c06_q_cast_byte_double);
-cast_all_targets!(i16, Variant::Int16, c06_q_cast_int16_sbyte, c06_q_cast_int16_byte, c06_q_cast_int16_int16, c06_q_cast_int16_uint16, c06_q_cast_int16_int32, c06_q_cast_int16_uint32, c06_q_cast_int16_int64, c06_q_cast_int16_uint64, c06_q_cast_int16_float, c06_q_cast_int16_double);
-cast_all_targets!(u16, Variant::UInt16, c06_q_cast_uint16_sbyte, c06_q_cast_uint16_byte, c06_q_cast_uint16_int16, c06_q_cast_uint16_uint16, c06_q_cast_uint16_int32, c06_q_cast_uint16_uint32, c06_q_cast_uint16_int64, c06_q_cast_uint16_uint64, c06_q_cast_uint16_float, c06_q_cast_uint16_double);
-cast_all_targets!(i32, Variant::Int32, c06_q_cast_int32_sbyte, c06_q_cast_int32_byte, c06_q_cast_int32_int16, c06_q_cast_int32_uint16, c06_q_cast_int32_int32, c06_q_cast_int32_uint32, c06_q_cast_int32_int64, c06_q_cast_int32_uint64, c06_q_cast_int32_float, c06_q_cast_int32_double);
-cast_all_targets!(u32, Variant::UInt32, c06_q_cast_uint32_sbyte, c06_q_cast_uint32_byte, c06_q_cast_uint32_int16, c06_q_cast_uint32_uint16, c06_q_cast_uint32_int32, c06_q_cast_uint32_uint32, c06_q_cast_uint32_int64, c06_q_cast_uint32_uint64, c06_q_cast_uint32_float, c06_q_cast_uint32_double);
-cast_all_targets!(i64, Variant::Int64, c06_q_cast_int64_sbyte, c06_q_cast_int64_byte, c06_q_cast_int64_int16, c06_q_cast_int64_uint16, c06_q_cast_int64_int32, c06_q_cast_int64_uint32, c06_q_cast_int64_int64, c06_q_cast_int64_uint64, c06_q_cast_int64_float, c06_q_cast_int64_double);
-cast_all_targets!(u64, Variant::UInt64, c06_q_cast_uint64_sbyte, c06_q_cast_uint64_byte, c06_q_cast_uint64_int16, c06_q_cast_uint64_uint16, c06_q_cast_uint64_int32, c06_q_cast_uint64_uint32, c06_q_cast_uint64_int64, c06_q_cast_uint64_uint64, c06_q_cast_uint64_float, c06_q_cast_uint64_double);
+cast_all_targets!(i8, Variant::SByte, c06_t_cast_sbyte_sbyte, c06_t_cast_sbyte_byte, c06_t_cast_sbyte_int16, c06_t_cast_sbyte_uint16, c06_t_cast_sbyte_int32, c06_t_cast_sbyte_uint32, c06_t_cast_sbyte_int64, c06_t_cast_sbyte_uint64, c06_t_cast_sbyte_float, c06_t_cast_sbyte_double);
+cast_all_targets!(u8, Variant::Byte, c06_t_cast_byte_sbyte, c06_t_cast_byte_byte, c06_t_cast_byte_int16, c06_t_cast_byte_uint16, c06_t_cast_byte_int32, c06_t_cast_byte_uint32, c06_t_cast_byte_int64, c06_t_cast_byte_uint64, c06_t_cast_byte_float, c06_t_cast_byte_double);
+cast_all_targets!(i16, Variant::Int16, c06_t_cast_int16_sbyte, c06_t_cast_int16_byte, c06_t_cast_int16_int16, c06_t_cast_int16_uint16, c06_t_cast_int16_int32, c06_t_cast_int16_uint32, c06_t_cast_int16_int64, c06_t_cast_int16_uint64, c06_t_cast_int16_float, c06_t_cast_int16_double);
+cast_all_targets!(u16, Variant::UInt16, c06_t_cast_uint16_sbyte, c06_t_cast_uint16_byte, c06_t_cast_uint16_int16, c06_t_cast_uint16_uint16, c06_t_cast_uint16_int32, c06_t_cast_uint16_uint32, c06_t_cast_uint16_int64, c06_t_cast_uint16_uint64, c06_t_cast_uint16_float, c06_t_cast_uint16_double);
+cast_all_targets!(i32, Variant::Int32, c06_t_cast_int32_sbyte, c06_t_cast_int32_byte, c06_t_cast_int32_int16, c06_t_cast_int32_uint16, c06_t_cast_int32_int32, c06_t_cast_int32_uint32, c06_t_cast_int32_int64, c06_t_cast_int32_uint64, c06_t_cast_int32_float, c06_t_cast_int32_double);
+cast_all_targets!(u32, Variant::UInt32, c06_t_cast_uint32_sbyte, c06_t_cast_uint32_byte, c06_t_cast_uint32_int16, c06_t_cast_uint32_uint16, c06_t_cast_uint32_int32, c06_t_cast_uint32_uint32, c06_t_cast_uint32_int64, c06_t_cast_uint32_uint64, c06_t_cast_uint32_float, c06_t_cast_uint32_double);
+cast_all_targets!(i64, Variant::Int64, c06_t_cast_int64_sbyte, c06_t_cast_int64_byte, c06_t_cast_int64_int16, c06_t_cast_int64_uint16, c06_t_cast_int64_int32, c06_t_cast_int64_uint32, c06_t_cast_int64_int64, c06_t_cast_int64_uint64, c06_t_cast_int64_float, c06_t_cast_int64_double);
+cast_all_targets!(u64, Variant::UInt64, c06_t_cast_uint64_sbyte, c06_t_cast_uint64_byte, c06_t_cast_uint64_int16, c06_t_cast_uint64_uint16, c06_t_cast_uint64_int32, c06_t_cast_uint64_uint32, c06_t_cast_uint64_int64, c06_t_cast_uint64_uint64, c06_t_cast_uint64_float, c06_t_cast_uint64_double);
 
 /// Boolean source: true = 1, false = 0 (implicit conversion; symbolic target).
 #[cfg(kani)]
@@ -266,8 +266,8 @@ macro_rules! cast_float_all {
     };
 }
 
-cast_float_all!(f64, Variant::Double, c06_q_cast_double_sbyte, c06_q_cast_double_byte, c06_q_cast_double_int16, c06_q_cast_double_uint16, c06_q_cast_double_int32, c06_q_cast_double_uint32, c06_q_cast_double_int64, c06_q_cast_double_uint64);
-cast_float_all!(f32, Variant::Float, c06_q_cast_float_sbyte, c06_q_cast_float_byte, c06_q_cast_float_int16, c06_q_cast_float_uint16, c06_q_cast_float_int32, c06_q_cast_float_uint32, c06_q_cast_float_int64, c06_q_cast_float_uint64);
+cast_float_all!(f64, Variant::Double, c06_t_cast_double_sbyte, c06_t_cast_double_byte, c06_t_cast_double_int16, c06_t_cast_double_uint16, c06_t_cast_double_int32, c06_t_cast_double_uint32, c06_t_cast_double_int64, c06_t_cast_double_uint64);
+cast_float_all!(f32, Variant::Float, c06_t_cast_float_sbyte, c06_t_cast_float_byte, c06_t_cast_float_int16, c06_t_cast_float_uint16, c06_t_cast_float_int32, c06_t_cast_float_uint32, c06_t_cast_float_int64, c06_t_cast_float_uint64);
 
 /// Implicit conversion from a floating-point source: only Float -> Double may succeed, exactly; nothing converts to an
 /// integer type implicitly with a changed value.
@@ -326,3 +326,63 @@ pub fn c06_q_cast_double_float() {
     kani::cover!(matches!(c, Variant::Float(_)), "double cast to float");
     core::mem::forget((c, v2));
 }
+
+/// cast with a SYMBOLIC target type (tractable with unwind 1: the drop glue of the intermediate convert result is cut
+/// at depth 1; an unwinding assertion on a feasible path would fail the harness, so the cut is checked, not assumed).
+macro_rules! cast_symbolic_target {
+    ($name:ident, $ty:ty, $ctor:path) => {
+        #[cfg(kani)]
+        #[kani::proof]
+        #[kani::stub(::regex::Regex::new, crate::stubs::regex_new)]
+        #[kani::stub(::std::fmt::format, crate::stubs::fmt_format)]
+        #[kani::unwind(1)]
+        pub fn $name() {
+            let x: $ty = kani::any();
+            let t = any_target();
+            let v = $ctor(x);
+            let r = v.cast(t);
+            check_from_int(x as i128, x as f32, x as f64, t, &r, true);
+            kani::cover!(r.type_id() == t, "a cast succeeded");
+            kani::cover!(r.type_id() == VariantTypeId::Empty, "a cast failed");
+            core::mem::forget(r);
+            core::mem::forget(v);
+        }
+    };
+}
+cast_symbolic_target!(c06_q_cast_sbyte, i8, Variant::SByte);
+cast_symbolic_target!(c06_q_cast_byte, u8, Variant::Byte);
+cast_symbolic_target!(c06_q_cast_int16, i16, Variant::Int16);
+cast_symbolic_target!(c06_q_cast_uint16, u16, Variant::UInt16);
+cast_symbolic_target!(c06_q_cast_int32, i32, Variant::Int32);
+cast_symbolic_target!(c06_q_cast_uint32, u32, Variant::UInt32);
+cast_symbolic_target!(c06_q_cast_int64, i64, Variant::Int64);
+cast_symbolic_target!(c06_q_cast_uint64, u64, Variant::UInt64);
+
+#[cfg(kani)]
+pub fn any_int_target() -> VariantTypeId {
+    let i: usize = kani::any();
+    kani::assume(i < 8);
+    TARGETS[i]
+}
+
+macro_rules! cast_float_symbolic_target {
+    ($name:ident, $ty:ty, $ctor:path) => {
+        #[cfg(kani)]
+        #[kani::proof]
+        #[kani::stub(::regex::Regex::new, crate::stubs::regex_new)]
+        #[kani::stub(::std::fmt::format, crate::stubs::fmt_format)]
+        #[kani::unwind(1)]
+        pub fn $name() {
+            let x: $ty = kani::any();
+            let t = any_int_target();
+            let v = $ctor(x);
+            let r = v.cast(t);
+            check_float_to_int(x as f64, t, &r);
+            kani::cover!(r.type_id() == t, "cast succeeded");
+            kani::cover!(r.type_id() == VariantTypeId::Empty, "cast failed");
+            core::mem::forget((r, v));
+        }
+    };
+}
+cast_float_symbolic_target!(c06_q_cast_double_to_int, f64, Variant::Double);
+cast_float_symbolic_target!(c06_q_cast_float_to_int, f32, Variant::Float);
